@@ -9,6 +9,7 @@
   bytes of one unit spell newline/payload/newline in order without loss (DESIGN.md 8, C11).
 -/
 import CatVerif.Proofs.Inv
+import CatVerif.Proofs.Log
 namespace Cat
 
 /-- Along every history of API operations from `cat_init`, with arbitrary callback answers, the
@@ -18,5 +19,45 @@ theorem C11_flush_exclusive (D : Desc) (buf ubuf : List Byte) (mem : List (List 
     ¬ (w.s.state = .flushWrite ∧ w.s.ustate = .flushWrite) := by
   exact runOps_induct' (fun w => FlushExcl w.s) (fun w op h => apply_flushExcl w op h) ops
     ⟨D, init D buf ubuf mem⟩ (by simp [FlushExcl, init])
+
+
+/-- Only a machine in FLUSH_IO_WRITE offers bytes to `io->write`: a `cat_service` call appends
+`wr` events of the command machine only if that machine is in FLUSH_IO_WRITE when its step
+starts, and likewise for the unsolicited machine. -/
+theorem C11_writer (D : Desc) (s : St) (i : SvcIn) :
+    (s.ustate ≠ .flushWrite → tr .wrU (serviceBody D s i).1.log = tr .wrU s.log) ∧
+    ((unsolicitedEventsService D s i).1.state ≠ .flushWrite → tr .wrC (serviceBody D s i).1.log = tr .wrC s.log) := by
+  unfold serviceBody
+  simp only
+  constructor
+  · intro h
+    have a := unsolicitedEventsService_no_write D s i h
+    have b := commandService_quiet .wrU (by decide) D (unsolicitedEventsService D s i).1 i (.of_ne (by decide) (by decide)) (.of_ne (by decide) (by decide))
+    simp only [Quiet] at a b
+    rw [b, a]
+  · intro h
+    have a := unsolicitedEventsService_quiet .wrC (by decide) D s i (.of_ne (by decide) (by decide)) (.of_ne (by decide) (by decide))
+    have b := commandService_no_write D (unsolicitedEventsService D s i).1 i h
+    simp only [Quiet] at a b
+    rw [b, a]
+
+/-- In one `cat_service` call at most one of the two machines writes output: given the
+exclusion invariant (which holds in every reachable state, `C11_flush_exclusive`), either the
+command machine's or the unsolicited machine's `wr` events are unchanged by the call. -/
+theorem C11_one_writer_per_call (D : Desc) (s : St) (i : SvcIn)
+    (h : ¬ (s.state = .flushWrite ∧ s.ustate = .flushWrite)) :
+    tr .wrC (serviceBody D s i).1.log = tr .wrC s.log ∨ tr .wrU (serviceBody D s i).1.log = tr .wrU s.log := by
+  have w := C11_writer D s i
+  by_cases hu : s.ustate = .flushWrite
+  · left
+    apply w.2
+    rw [uns_flush_keeps_state D s i (Or.inr hu)]
+    intro hc; exact h ⟨hc, hu⟩
+  · right; exact w.1 hu
+
+/-- non-vacuity: a reachable state in which the unsolicited machine is writing while the command
+machine waits for it -/
+example : ∃ s : St, s.ustate = .flushWrite ∧ s.state = .flushWait ∧ ¬ (s.state = .flushWrite ∧ s.ustate = .flushWrite) :=
+  ⟨{ (default : St) with ustate := .flushWrite, state := .flushWait }, rfl, rfl, by simp⟩
 
 end Cat
